@@ -202,6 +202,26 @@ def inject(rng, elab, items, kind):
     return None
 
 
+def _restating_override(rng, lines, culprit):
+    """'key=value' for a top-level key line (not the culprit line) whose key occurs once at top level and whose value is
+    plain text: overriding it changes nothing"""
+    import re
+    prof = cutter.depth_profile(lines)
+    depth, tops = 0, []
+    for i, (l, d) in enumerate(zip(lines, prof)):
+        if depth == 0 and d == 0 and i != culprit - 1:
+            m = re.match(r"^\s*([A-Za-z][-._A-Za-z0-9]*)\s+(\S(?:.*\S)?)\s*$", l)
+            if m and "$" not in m.group(2) and "=" not in m.group(1) and not l.lstrip().startswith(("%", "#", "<")):
+                tops.append((m.group(1), m.group(2)))
+        depth += d
+    keys = [k.lower().replace("_", "-") for k, _ in tops]
+    once = [(k, v) for k, v in tops if keys.count(k.lower().replace("_", "-")) == 1 and v == v.strip() and not any(c in v for c in "\x0b\x0c\x1c\x1d\x1e\x85\u2028\u2029")]
+    if not once:
+        return None
+    k, v = rng.choice(once)
+    return "%s=%s" % (k, v)
+
+
 def run(ctx):
     obligations, discharged, names = core.standard_prelude(ctx, ["ZCV.Props.C08"])
     n_schemas = 400 if ctx.thorough() else 50
@@ -236,6 +256,18 @@ def run(ctx):
             c.lines, c.faults, c.overrides = lines, [kind], ()
             c.meta = {"culprit": culprit, "kinds": exp, "extra": extra, "kind": kind}
             cases.append(c)
+            if rng.random() < 0.35:
+                # the same faulty text loaded WITH an override that merely restates one top-level key line of the text
+                # (another line than the culprit): the loader then runs through the command-line matchers; culprit and
+                # position are what they were
+                ov = _restating_override(rng, lines, culprit)
+                if ov:
+                    o = cfgstream.Case()
+                    o.sd, o.real, o.elab, o.hnames = sd, real, elab, hn
+                    o.lines, o.faults, o.overrides = lines, [kind, "with-override"], (ov,)
+                    o.meta = dict(c.meta)
+                    cases.append(o)
+                    ctx.count("with-restating-override")
             if rng.random() < 0.6:
                 # the same faulty text with 1..3 balanced ranges moved into %include fragments: the culprit line is
                 # then a line of the main resource or of a fragment (which counts its own lines), at any include depth
@@ -262,9 +294,15 @@ def run(ctx):
         if out[0] == "ok":
             ctx.count("accepted-despite-fault:" + kind)
             continue
+        if out[0] == "internal":
+            # an exception outside the configuration-error family (C07) carries no line and no resource either
+            ctx.count("non-cfg:" + kind)
+            ctx.violate("fault %s at line %d: the load ends with %s, which names neither the line nor the resource" % (kind, c.meta["culprit"], out[1]),
+                        dict(c.replay(), culprit=c.meta["culprit"], impl=out), signature="C08:%s:internal:%s" % (kind, out[1]))
+            continue
         if out[0] != "cfg":
             ctx.count("non-cfg:" + kind)
-            continue   # C07's business
+            continue   # an exception of a datatype function itself
         ctx.count("fault:" + kind)
         ctx.nontriv((id(c.sd), tuple(c.lines)))
         # correspondence on position
